@@ -106,7 +106,7 @@ MInit ==
       pendDesp |-> <<>>,   \* [e, seen]
       pdr |-> <<>>,        \* pending despawn reactions: [s, e, h]
       elocal |-> <<>>,     \* e -> local value of the entity world reactor (0 = none)
-      drvlast |-> 0,
+      drvlast |-> 0, stepkind |-> "",
       sig |-> <<>>,        \* payload -> plain entity whose auto-despawn signal travels in it
       doomedE |-> {},      \* plain entities whose signal has been released: the next GC must despawn them
       immk |-> {},         \* <<r, i>> of ops that are immediate calls from an exclusive body
@@ -654,8 +654,12 @@ OnDiscard(m, o) ==
         m1 == Chk(m, c.st = "postponed", "C02", "a command that was not postponed was discarded")
         m2a == IF c.s \in m.alive THEN V2(m1, "C02", "C09", "a postponed command was discarded although its target system exists") ELSE m1
         \* ... and when it was a reaction, a matching live registration got no run for that trigger
-        m2 == IF c.s \in m.alive /\ c.kind \in {"bc", "eev", "res", "ereact"}
-              THEN V(m2a, "C01", "a reaction scheduled for a live registration was thrown away instead of run") ELSE m2a
+        m2b == IF c.s \in m.alive /\ c.kind \in {"bc", "eev", "res", "ereact"}
+               THEN V(m2a, "C01", "a reaction scheduled for a live registration was thrown away instead of run") ELSE m2a
+        m2c == IF c.s \in m.alive /\ c.kind \in {"bc", "eev", "sysev"} /\ c.p # 0
+               THEN V(m2b, "C05", "the payload of a delivery was released by discarding the delivery although its reader exists") ELSE m2b
+        m2 == IF c.s \in m.alive /\ (c.kind = "desp" \/ (c.kind = "ereact" /\ c.rk = "rem"))
+              THEN V(m2c, "C08", "a removal or despawn reaction was thrown away instead of run") ELSE m2c
     IN ReleaseReader(SetCmd(m2, o.k, "discarded"), c)
 
 OnExit(m, o) ==
@@ -762,10 +766,12 @@ OnQuiesce(m, o) ==
         m5 == IF \E p \in m.pdead : p \in DOMAIN m.pay /\ ~m.pay[p].dropped
               THEN V(m5a, "C18", "the payload of an event that had a despawned listener was not released") ELSE m5a
         \* removals and despawns a completed poll should have reported
-        lateRem == \E i \in DOMAIN m.pendRem : m.pendRem[i].seen
+        \* a frame (`frame` and `clear` steps run App::update) ends with the scheduled poll: whatever is pending then counts as seen
+        frameend == m.stepkind \in {"frame", "clear"}
+        lateRem == \E i \in DOMAIN m.pendRem : (m.pendRem[i].seen \/ frameend)
                       /\ \E x \in Range(m.reg) : x.id \in m.pendRem[i].then /\ x.s \in m.alive
                             /\ Matches(x, "rem", m.pendRem[i].c, m.pendRem[i].e)
-        lateDesp == \E i \in DOMAIN m.pendDesp : m.pendDesp[i].seen
+        lateDesp == \E i \in DOMAIN m.pendDesp : (m.pendDesp[i].seen \/ frameend)
                       /\ \E x \in Range(m.reg) : x.kd = "desp" /\ x.e = m.pendDesp[i].e /\ x.s \in m.alive
         \* (the notification is still waiting inside the framework and will run in some later tree: also residue, C11)
         m6a == IF lateRem THEN V2(m5, "C08", "C11", "a component removal was not reacted to by the poll that followed it") ELSE m5
@@ -824,7 +830,7 @@ OnPanic(m, o) ==
 
 MonStep(m, o) ==
     CASE o.t = "cfg" -> OnCfg(m, o)
-      [] o.t = "drv" -> m
+      [] o.t = "drv" -> [m EXCEPT !.stepkind = o.kind]
       [] o.t = "issue" -> OnIssue(m, o)
       [] o.t = "apply" -> OnApply(m, o)
       [] o.t = "done" -> OnDone(m, o)
